@@ -210,7 +210,14 @@ def d3_metadata(ctx):
               "fileSizeBytes is not the size of the lf file", key="lf-size")
 
 
+def dS_shared(ctx):
+    from sa.common import rule_no_shared_mutation
+    rule_no_shared_mutation(ctx, "DS", ['neuropixel.NP2Converter.extract_lfp', 'neuropixel.NP2Converter.extract_lfp_sync', 'neuropixel.NP2Converter._process_NP21', 'neuropixel.NP2Converter._process_NP24', 'neuropixel.NP2Converter._writemetadata_lf'],
+                            'the LFP of a later window depends on an earlier window')
+
+
 def run(ctx):
+    ctx.run(dS_shared)
     ctx.run(d1_tiling)
     ctx.run(d2_decimation)
     ctx.run(d3_metadata)
